@@ -35,6 +35,10 @@ def make_cases(seed: int, tier: str, n_cases: int | None = None) -> list[dict]:
         histories = [[{"sigma": {}}], [{"sigma": {}}]]
         for k, dims in enumerate(groups):
             histories.append([{"sigma": engine.sample_sigma(rng(cs, "sched", k), dims), "dims": dims}])
+        # "between repeated runs" also means: repeated into the SAME output directory (the second run finds the first
+        # run's files); the tree after the second run is compared with the reference like any other schedule
+        rs2 = rng(cs, "rerun")
+        histories.append([{"sigma": {}}, {"sigma": engine.sample_sigma(rs2, ["hashseed", "enum"]), "dims": ["rerun", "hashseed", "enum"]}])
         cases.append({"index": idx, "case_seed": cs, "verif_seed": seed, "pkg": pkg, "options": options, "histories": histories})
     return cases
 
@@ -109,10 +113,10 @@ def judge(case: dict, results: list[list[dict]], normalisers: list | None = None
 
     compare(ref, ref2, "repeat", 1)
     for i in range(2, len(results)):
-        compare(ref, results[i][0], "schedule", i)
+        compare(ref, results[i][-1], "schedule", i)
     if not ref["src_unchanged"]:
         verdict.setdefault("harness_notes", []).append("source tree changed during the reference run")
-    steps = [h[0] for h in results]
+    steps = [s_ for h in results for s_ in h]
     verdict["stats"] = {
         "runs": len(steps),
         "signatures": [engine.io_signature(s) for s in steps if s["outcome"] == "completed"],
@@ -189,7 +193,7 @@ def coverage(cases: list[dict], verdicts: list[dict], tier: str, wall: float) ->
             if (c["pkg"].get("meta", {}).get("probes") or {}).get(k):
                 probes[k] += 1
         for h in c["histories"]:
-            sg = h[0].get("sigma") or {}
+            sg = h[-1].get("sigma") or {}
             for d in sg:
                 dims_varied[d] = dims_varied.get(d, 0) + 1
             if "hashseed" in sg:
